@@ -47,7 +47,7 @@ func c16Plan(tier string) []core.Suite {
 	if tier == "thorough" {
 		return []core.Suite{{Name: "small", N: 9, Exhaustive: true, CaseTimeout: 900}, {Name: "proofpos", N: 13, Exhaustive: true, CaseTimeout: 900}, {Name: "large", N: 64 * 400}}
 	}
-	return []core.Suite{{Name: "small", N: 7, Exhaustive: true}, {Name: "proofpos", N: 9, Exhaustive: true}, {Name: "large", N: 64 * 6}}
+	return []core.Suite{{Name: "small", N: 7, Exhaustive: true}, {Name: "proofpos", N: 9, Exhaustive: true}, {Name: "large", N: 64 * 40}}
 }
 
 func init() {
